@@ -28,7 +28,7 @@ TDefaults ==
 VARIABLES main, dfile, ph, fails
 vars == <<main, dfile, ph, fails>>
 
-Values(n) == {None, RolesB({"x"})} \cup (IF IsReg(n) THEN {Dflt(n).body} ELSE {}) \cup (IF n = "o" THEN {Alias("n"), RolesB({"old"})} ELSE {})
+Values(n) == {None, RolesB({"x"}), AnyRule} \cup (IF IsReg(n) THEN {Dflt(n).body} ELSE {}) \cup (IF n = "o" THEN {Alias("n"), RolesB({"old"})} ELSE {})
 Contents == {c \in [Names -> UNION {Values(n) : n \in Names}] : \A n \in Names : c[n] \in Values(n)}
 
 \* the statement's exclusion: both a deprecated name and one of its successors
